@@ -22,7 +22,7 @@ RULE = (
     "interleaving is the drawn schedule. Oracle: model = per-thread stack of frames (copy-on-enter of the frame below; the "
     "bottom frame is the global registry, or the main thread's frame for inherited threads); after EVERY step EVERY thread "
     "(and the main thread) reads list_decomps / has_decomp / get_fixed_decomp for all dummy operators inside its own context "
-    "and must see exactly its model frame (rule names in insertion order, rule identity for fixed rules); at the end all "
+    "and must see exactly its model frame (rule names in insertion order, rule identity; every returned collection is then mutated, which must stay invisible); at the end all "
     "threads unwind, and the global registry (rule names of every operator) equals its initial snapshot plus the modelled "
     "global additions and no fixed rule remains. Non-trivial: at some point >= 2 threads are inside local contexts with "
     "different rule sets for the same operator."
@@ -36,7 +36,7 @@ ASSUMPTIONS = [
     "Global additions (add_decomps outside any context) are made for harness dummy operators only and are removed from the "
     "registry after the case.",
 ]
-BUDGET = {"quick": {"examples": 700}, "thorough": {"examples": 32000, "shards": 16}}
+BUDGET = {"quick": {"examples": 1200}, "thorough": {"examples": 32000, "shards": 16}}
 SHRINK_LISTS = ("schedule", "prelude")
 
 OPS = ["PvDummyA", "PvDummyB", "PvDummyC"]
@@ -71,6 +71,7 @@ def make_rules():
     for i in range(N_RULES):
         rules[f"r{i}"] = qp.register_resources({qp.RZ: 1}, body, name=f"r{i}")
         rules[f"R{i}"] = qp.register_resources({qp.RZ: 1}, body, name=f"r{i}")
+    rules["probe"] = qp.register_resources({qp.RZ: 1}, body, name="probe")
     return rules
 
 
@@ -239,7 +240,14 @@ def observe(rules):
         how = ("type", "str", "inst")[i % 3]
         coll = list_decomps(ref(op, how))
         fx = get_fixed_decomp(ref(op, ("str", "inst", "type")[i % 3]))
-        out[op] = {"names": [r.name for r in coll], "ids": [inv.get(id(r), "?") for r in coll],
+        names, ids = [r.name for r in coll], [inv.get(id(r), "?") for r in coll]
+        if fx is None:
+            # documented: the returned collection is a copy; mutating it must not reach any registry
+            try:
+                coll.append(rules["probe"])
+            except ValueError:
+                pass
+        out[op] = {"names": names, "ids": ids,
                    "has": has_decomp(ref(op, ("inst", "type", "str")[i % 3])),
                    "fixed": None if fx is None else inv.get(id(fx), "?")}
     return out
@@ -386,6 +394,11 @@ def compare(view, frame, who, step_desc, feats):
 
 
 def check(spec):
+    # run in a copy of the current context: ContextVar.set calls that a defect fails to undo cannot reach the next case
+    return contextvars.copy_context().run(_check, spec)
+
+
+def _check(spec):
     from concurrent.futures import ThreadPoolExecutor
 
     from pennylane.decomposition import local_decomps
